@@ -33,6 +33,8 @@ CLAIMED["C11"] = ("DESIGN.md#c11", "Lean theorems for the overridden methods (as
          "Lean 4 proof over override models + differential run against native classes")
 CLAIMED["C12"] = ("DESIGN.md#c12", "Lean theorems: the nine units are WallUnits (7 consistent week configurations); start_of <= x <= end_of as instants, same unit, the microsecond before/after lies in another unit, idempotence, zone kept, origin independence for every well-formed zone table when the boundary label is ordinary, repeated, or the first/last value of a gap (after the fix); full for fixed offsets, naive values and Dates; sub-day units partial (known finding F11b with Lean counterexamples); correspondence 2.5x10^5 ops x 2 backends; oracle = min/max of the unit's instant set computed from the tz table",
          "Lean 4 proof over zone-table + calendar model + differential correspondence run")
+CLAIMED["C08"] = ("DESIGN.md#c08", "Token alternation order, rule/regex key sets, the 30 _TOKENS_RULES lambdas, named formats, to_*_string bodies and per-locale name/ordinal tables are regenerated into Lean; theorems: one per token family against the calendar definitions (YYYY..SSSSSS, Z/ZZ for every whole-minute offset, X/x, Q, DDDD, E/d, A), literal text verbatim, named formats = documented compositions, from_format(format(dt)) = dt on the class of separator-delimited numeric formats (partial outside it), defaults from now, mismatch -> ValueError only, locale tables injective / round-trip for all 27 locales; correspondence 8x10^4 ops x 2 backends; oracle = strftime + integer arithmetic",
+         "Lean 4 proof over regenerated formatter tables (Gen.Format*) + hand model tied by differential run")
 NA = {}
 def main():
     props = [json.loads(l) for l in open(os.path.join(ROOT, "properties.jsonl"))]
